@@ -294,12 +294,31 @@ func (w *world) afterStake(in *intent, ok bool, vmErr, log string, pre, post *sn
 		return
 	}
 	amt := si.amount
+	// shares a token amount is worth at a validator, at the exchange rate before the transaction (1:1 until
+	// the validator is slashed)
+	inShares := func(val string, tokens *big.Int) *big.Int {
+		r, ok := pre.rate[val]
+		if !ok {
+			return tokens
+		}
+		neg := tokens.Sign() < 0
+		v := r.MulInt(sdk.NewIntFromBigInt(new(big.Int).Abs(tokens))).TruncateInt().BigInt()
+		if neg {
+			v.Neg(v)
+		}
+		return v
+	}
 	expect := func(key string, delta *big.Int) {
+		if parts := strings.Split(key, "|"); parts[0] == "del" {
+			delta = inShares(parts[2], delta)
+		}
 		got := new(big.Int).Sub(bigOf(d[key][1]), bigOf(d[key][0]))
 		if _, changed := d[key]; !changed {
 			got = new(big.Int)
 		}
-		if got.Cmp(delta) != 0 {
+		diff := new(big.Int).Abs(new(big.Int).Sub(got, delta))
+		// after a slash shares and tokens are no longer 1:1 and the staking module truncates: one unit of rounding
+		if diff.Sign() != 0 && !(w.slashed && diff.Cmp(big.NewInt(1)) <= 0) {
 			w.rec.Violate("C17", "wrong_effect", si.path+":"+si.action, "%s: %s changed by %s, expected %s (once per emitted event, exactly the passed amount)", in.desc, key, got, delta)
 		}
 	}
@@ -333,9 +352,15 @@ func (w *world) afterStake(in *intent, ok bool, vmErr, log string, pre, post *sn
 	// bank side of a delegation: the caller pays exactly the amount into the bonded pool
 	if si.action == "delegate" && si.path == "eoa" {
 		bd := balDiff(pre, post)
-		bp := "bank|mod:" + stakingtypes.BondedPoolName + "|" + node.Denom
-		if bd[bp] == nil || bd[bp].Cmp(amt) != 0 {
-			w.rec.Violate("C17", "wrong_effect", "eoa:delegate:bonded_pool", "%s: bonded pool changed by %v, expected %s", in.desc, bd[bp], amt)
+		// (a jailed validator's stake sits in the not-bonded pool)
+		sum := new(big.Int)
+		for _, pool := range []string{stakingtypes.BondedPoolName, stakingtypes.NotBondedPoolName} {
+			if v := bd["bank|mod:"+pool+"|"+node.Denom]; v != nil {
+				sum.Add(sum, v)
+			}
+		}
+		if sum.Cmp(amt) != 0 {
+			w.rec.Violate("C17", "wrong_effect", "eoa:delegate:bonded_pool", "%s: staking pools changed by %v, expected %s", in.desc, sum, amt)
 		}
 	}
 }
